@@ -1,4 +1,5 @@
 import BlobfinderModel.Properties.C09
+import BlobfinderModel.Gen.Patterns
 /-!
 # C09 — wiring: text of the current source pinned for code that is glue between library calls
 (kept apart from the property theorems so that a module importing `Properties.C09` does not depend on these pins)
@@ -13,5 +14,14 @@ theorem full_buffers_fresh :
     Gen.full_crop_bufs_fresh = true ∧ Gen.full_log_arg = "frame" ∧ Gen.full_log_out = "frame_buf"
       ∧ Gen.full_fft_input = "fft.rfft2(frame_buf)" := by
   refine ⟨rfl, rfl, rfl, rfl⟩
+
+/-- the array `UserTemplate.get_mask` hands out is a copy of the template, padded / cropped: writing to it does not reach the
+pattern object (no state leaks through a returned mask) -/
+theorem user_mask_is_a_copy :
+    Gen.ut_init_expr = "self.template.copy()"
+    ∧ Gen.ut_return_expr = "result.astype(self.template.dtype)"
+    ∧ Gen.ut_tail = "assert result.shape == tuple(sig_shape) ; return result.astype(self.template.dtype)" := by
+  refine ⟨rfl, rfl, rfl⟩
+
 
 end C09
